@@ -205,6 +205,25 @@ def check_case(case, acc):
                         wp = want @ np.array([p[0], p[1], p[2], 1.0])
                         if not close(gp, wp[:3], 1e-7) or not same_rot(gr, want[:3, :3] @ q.rotation_matrix, 1e-8):
                             bad("registry-history:stale-answer", "query %s returns %s, the currently registered matrices give %s" % (op[1], gp, wp[:3]))
+        # a deep copy of the registry (what copying a frame or a frame result does) answers like the registry itself
+        import copy as _copy
+        acc.exec()
+        try:
+            cp = _copy.deepcopy(td)
+        except Exception as ex:  # noqa
+            cp = None
+            bad("registry-history:deepcopy-raises", "copy.deepcopy of the registry raised %r" % (ex,))
+        if cp is not None:
+            for name, (src, dst) in (("AB", (A, B)), ("BA", (B, A))):
+                outs = []
+                for reg_ in (td, cp):
+                    try:
+                        gp_, gr_ = reg_.transform((src, dst), p, q)
+                        outs.append(("ok", tuple(np.round(np.asarray(gp_, dtype=float), 9)), tuple(np.round(gr_.rotation_matrix.ravel(), 9))))
+                    except KeyError:
+                        outs.append(("KeyError",))
+                if outs[0] != outs[1]:
+                    bad("registry-history:deepcopy-differs", "after the history, query %s on a deep copy of the registry gives %s, on the registry itself %s" % (name, outs[1][:2], outs[0][:2]))
         acc.state(("reg_hist", tuple(sorted(ref)), tuple(case["ops"][-2:]), last_out), nontrivial=len(case["ops"]) >= 3 and REG_OPS[case["ops"][-1]][0] == "q")
         acc.outcome(("reg_hist", last_out))
         if acc.cases % 997 == 1:
@@ -302,6 +321,15 @@ def check_case(case, acc):
                 bad("dot:mismatch-accepted", "composition with mismatched frames (%s<-%s . %s<-%s) was not rejected" % (wrong[0].dst, wrong[0].src, wrong[1].dst, wrong[1].src))
             except ValueError:
                 pass
+        # the same through transform(matrix) / transform(matrix=...): X.transform(Y) composes Y after X, so Y must start where X ends
+        for first_, second_ in ((BC, AB), (AB, AB), (BC, BC)):
+            for kw in (False, True):
+                try:
+                    out_ = first_.transform(matrix=second_) if kw else first_.transform(second_)
+                    bad("transform(matrix):mismatch-accepted", "(%s->%s).transform(%s->%s) was not rejected but returned %s->%s" % (
+                        first_.src, first_.dst, second_.src, second_.dst, out_.src, out_.dst))
+                except ValueError:
+                    pass
         acc.state(("pair", case["a"][0], case["a"][1], case["b"][0], case["b"][1], case["a"][2], case["b"][2]), nontrivial=case["a"][0] >= 3 or case["b"][0] >= 3)
         acc.outcome(("pair",))
         if acc.cases % 2003 == 1:
